@@ -172,12 +172,30 @@ def run_chains(ctx, res, nsets):
             # correspondence: span markup of the first written document == model trace
             W, doc, mreq = docs[0]
             pl = [p for p in G.p_payloads(doc) if p.strip() != "&nbsp;"]
+            if mreq is not None and len(pl) != len(specs):
+                res["distribution"]["trace_comparison_skipped"] = res["distribution"].get("trace_comparison_skipped", 0) + 1
             if mreq is not None and len(pl) == len(specs):
+                # INFORMATION only: the statement fixes balance and flags, not which markup spells a span
                 traces = oracle_batch([(1105, [mreq[0], mreq[1], G.wire_nodes(s)]) for s in specs])
                 for s, p, tr in zip(specs, pl, traces):
-                    if [bool(x) for x in tr[0]] != span_trace(p):
-                        res["disagreements"].append({"fmt": name, "what": "span markup differs from the model trace",
-                                                     "nodes": s, "payload": p, "model": tr})
+                    key = "span_trace_equal" if [bool(x) for x in tr[0]] == span_trace(p) else "span_trace_differs"
+                    res["distribution"][key] = res["distribution"].get(key, 0) + 1
+            # reader output -> WebVTT (the only writer that uses the END node's dictionary)
+            if len(steps) >= 1:
+                rd1 = impl.call(lambda: steps[0][1]().read(docs[0][1]))
+                wv = impl.call(lambda: WebVTTWriter().write(rd1.v)) if isinstance(rd1, Ok) else rd1
+                if isinstance(wv, Ok):
+                    pls = vtt_payloads(wv.v)
+                    if len(pls) == len(specs):
+                        full = all(mask)
+                        for s_, p_, o_ in zip(specs, pls, oracle_batch([(1103, [G.wire_nodes(s), p]) for s, p in zip(specs, pls)])):
+                            res["evaluations"] += 1
+                            if o_[1] == [] or (full and o_[0] != 1):
+                                viol.append(dict(base, kind="vtt-tags" if o_[1] == [] else "flags-differ", input=[s_], cue_text=p_,
+                                                 replay="chain-vtt", shape="reader-to-webvtt",
+                                                 what=f"{name} -> WebVTT: tags written from the reader's nodes are not properly "
+                                                      "nested" if o_[1] == [] else f"{name} -> WebVTT: flags differ"))
+                        res["distribution"]["reader_to_webvtt"] = res["distribution"].get("reader_to_webvtt", 0) + len(specs)
         # stream B: WebVTT
         out = impl.call(lambda: WebVTTWriter().write(cs0))
         res["evaluations"] += len(specs)
@@ -200,9 +218,62 @@ def run_chains(ctx, res, nsets):
                                  what="WebVTT: i/b/u tags are not properly nested" if o[1] == [] else
                                       "WebVTT: the characters inside i/b/u tags are not the authored ones"))
             tags = [[m.group(1) == "", "ibu".index(m.group(2))] for m in re.finditer(r"<(/?)([ibu])>", p)]
-            if tags != [[bool(a), b] for a, b in ev]:
-                res["disagreements"].append({"fmt": "WebVTT", "what": "tags in the cue text differ from vtt_tag_evs",
-                                             "nodes": s, "cue_text": p, "model": ev})
+            key = "vtt_tag_sequence_equal" if tags == [[bool(a), b] for a, b in ev] else "vtt_tag_sequence_differs"
+            res["distribution"][key] = res["distribution"].get(key, 0) + 1      # information: the order i,u,b is not the property
+        run_layout_split(ctx, res, specs)
+
+
+def run_layout_split(ctx, res, specs):
+    """captions whose nodes lie in two layout groups (split at a break outside every span): WebVTT writes one cue per group;
+    every cue must have properly nested tags, i.e. a span of the second group opens in the second cue"""
+    from pycaption.geometry import Layout, Point, Size, UnitEnum
+    L = [Layout(origin=Point(Size(10, UnitEnum.PERCENT), Size(10, UnitEnum.PERCENT))),
+         Layout(origin=Point(Size(20, UnitEnum.PERCENT), Size(70, UnitEnum.PERCENT)))]
+    for spec in specs:
+        cuts = [i for i, n in enumerate(spec) if n[0] == "b" and depth_at(spec, i) == 0 and 0 < i < len(spec) - 1]
+        if not cuts:
+            continue
+        cut = ctx.rng.choice(cuts)
+        cs = G.capset([spec])
+        cap = all_caption_objects(cs)[0]
+        for i, node in enumerate(cap.nodes):
+            node.layout_info = L[0] if i <= cut else L[1]
+        out = impl.call(lambda: WebVTTWriter().write(cs))
+        res["evaluations"] += 1
+        res["distribution"]["WebVTT_two_layout_groups"] = res["distribution"].get("WebVTT_two_layout_groups", 0) + 1
+        base = {"fmt": "WebVTT", "input": [spec], "cut": cut, "replay": "vtt-layout", "shape": "layout-split"}
+        if not isinstance(out, Ok):
+            res["violations"].append(dict(base, kind="writer-raises", what="WebVTTWriter raised on two layout groups"))
+            continue
+        pls = vtt_payloads_all(out.v)
+        outs = oracle_batch([(1103, [G.wire_nodes(spec), p]) for p in pls])
+        if any(o[1] == [] for o in outs):
+            res["violations"].append(dict(base, kind="vtt-tags", document=out.v,
+                                          what="WebVTT: a cue of a caption with two layout groups has unbalanced i/b/u tags"))
+
+
+def all_caption_objects(cs):
+    return [c for lang in cs.get_languages() for c in cs.get_captions(lang)]
+
+
+def vtt_payloads_all(doc):
+    """like vtt_payloads, but a new timing line also ends the previous cue (the writer puts no blank line between the
+    cues of two layout groups)"""
+    out, cur = [], None
+    for line in doc.split("\n")[2:]:
+        if "-->" in line:
+            if cur is not None:
+                out.append("\n".join(cur))
+            cur = []
+        elif line == "":
+            if cur is not None:
+                out.append("\n".join(cur))
+                cur = None
+        elif cur is not None:
+            cur.append(line)
+    if cur is not None:
+        out.append("\n".join(cur))
+    return out
 
 
 def depth_at(spec, i):
@@ -339,14 +410,18 @@ def run(ctx):
     nt = sorted(res["nontrivial"], key=lambda x: len(x[1]))
     res["samples"] = [{"chain": a, "nodes": b[:300]} for a, b in nt[len(nt) // 3:len(nt) // 3 + 3] + nt[-2:]]
     res["clauses"] = {
-        "theorem": ["every caption returned by the DFXP / SAMI / WebVTT reader models has balanced style nodes (all trees)",
-                    "DFXP writers: every </span> closes an open <span>, the number left open is the open_span flag (any node "
-                    "list); flat balanced spans leave none open; SAMI likewise for flat balanced spans",
-                    "WebVTT: the i/b/u tags written for flat balanced spans are properly nested"],
-        "correspondence_only": ["the characters marked i/b/u are the same after DFXP->DFXP, SAMI->SAMI, DFXP<->SAMI (executed, "
-                                "judged by Coq ok_flags)", "WebVTT cue text: per-character flags through the Coq WebVTT pass",
-                                "SCC reader output balance (real reader on generated streams)",
-                                "span markup sequence of every written payload == instrumented model trace"]}
+        "theorem": ["DFXP / SAMI reader models return depth-balanced style nodes (all trees; end-node dictionaries not compared); "
+                    "the WebVTT reader model has no style nodes (trivial)",
+                    "DFXP writer model: every </span> closes an open <span>, the number left open is the open_span flag (any "
+                    "node list); flat balanced spans leave none open; SAMI likewise for flat balanced spans",
+                    "WebVTT model: the i/b/u tag events for flat balanced spans are properly nested (no layout groups)",
+                    "model round trips writer -> strict parser -> reader keep the flags per visible character: italics through "
+                    "DFXP / legacy DFXP, i+b+u through SAMI (flat balanced spans, no colour)"],
+        "correspondence_only": ["the characters marked i/b/u are the same after DFXP->DFXP, SAMI->SAMI, DFXP<->SAMI on the real "
+                                "code (judged by Coq ok_flags)", "WebVTT cue text: per-character flags through the Coq WebVTT "
+                                "pass; reader output -> WebVTT; captions with two layout groups (every cue balanced)",
+                                "SCC reader output balance (real reader on generated pop-on streams)",
+                                "literal span / tag sequence vs the model trace: COUNTED only (first document of a chain)"]}
     res["trusted_extra"] = ["lxml (strict) for DFXP markup, an html.parser tag-balance pass for SAMI markup"]
     return res
 
@@ -384,6 +459,25 @@ def replay(ctx, rec):
             outs = oracle_batch([(1102, [list(mask), G.wire_nodes(a), G.wire_nodes(o)]) for a, o in zip(specs, final)] +
                                 [(1100, G.wire_nodes(o)) for o in final])
             return any(o != 1 for o in outs), final
+    if kind == "vtt-layout":
+        spec = [tuple(n) for n in rec["input"][0]]
+        ctx.rng.choice = lambda l: rec["cut"] if rec["cut"] in l else l[0]
+        run_layout_split(ctx, r, [spec])
+        return bool(r["violations"]), [v.get("document") for v in r["violations"]]
+    if kind == "chain-vtt":
+        specs = [[tuple(n) for n in s] for s in rec["input"]]
+        for (name, steps, mask) in CHAINS:
+            if name != rec["fmt"]:
+                continue
+            W, R, _ = steps[0]
+            out = impl.call(lambda: W().write(G.capset(specs)))
+            rd = impl.call(lambda: R().read(out.v)) if isinstance(out, Ok) else out
+            wv = impl.call(lambda: WebVTTWriter().write(rd.v)) if isinstance(rd, Ok) else rd
+            if not isinstance(wv, Ok):
+                return True, "raises"
+            pls = vtt_payloads(wv.v)
+            outs = oracle_batch([(1103, [G.wire_nodes(s), p]) for s, p in zip(specs, pls)])
+            return any(o[1] == [] or (all(mask) and o[0] != 1) for o in outs), pls
     if kind in ("scc", "doc"):
         R = {"SCC": SCCReader, "DFXP": DFXPReader, "SAMI": SAMIReader, "WebVTT": WebVTTReader}[rec["fmt"]]
         rd = impl.call(lambda: R().read(rec["document"]))
